@@ -245,6 +245,23 @@ def run(F, run, tier):
     # rests on the helper being the classical fourth-order method (shared with C03 R3.2)
     c03.check_rk4_startup(F, run, "adams", "ivp::adams::AdamsSolver", M.ADAMS_IMPLS["AdamsCoefficients5"][0], 5)
     c03.check_rk4_startup(F, run, "bdf", "ivp::bdf::BDFSolver", M.BDF_IMPLS["BDF6Coefficients"][0], 7)
+    # a rejected start-up must be undone coherently: the next points are judged against the exact flow restarted from the *yielded* point, so a
+    # roll-back that restores the state but not the matching time (or vice versa) puts an error of order dt — not tol·dt — into the next step
+    # (typestate exploration shared with C01 R1.4-T3 / C03 R3.2-T3)
+    from rules import proto
+    for name, (selfty, O) in list(M.ADAMS_IMPLS.items()) + list(M.BDF_IMPLS.items()):
+        kind = "adams" if name in M.ADAMS_IMPLS else "bdf"
+        try:
+            P = proto.Proto(F, kind, selfty, O)
+            r = P.explore()
+        except (Missing, sym.Unsupported) as e:
+            run.broken("R2.5-T3", name, "exploration", "src/ivp", "cannot explore the step() protocol: %s" % e)
+            continue
+        hits = {k: v for k, v in r["problems"].items() if k.startswith("T3")}
+        for key, (what, node, st, labels) in hits.items():
+            run.fail("R2.5-T3", P.name, "%s:%s" % (key.split(":", 1)[1], name), F.loc(P.step, node) if node else F.loc(P.step), what)
+        if not hits:
+            run.ok("R2.5-T3", name, "%s: every roll-back of a rejected start-up returns to the saved (time, state) over %d transitions" % (name, len(r["transitions"])))
     run.assumptions += ["the local error *bound* is numerical and is not decided; only the mechanism is",
                         "the clipped final RK4 step (one site per multistep solver) is taken without an estimator: named exception"]
     expl = ("Every write to the solution in the three adaptive steppers is shown to lie on the true edge of the accept test (estimate defined "
